@@ -4,37 +4,88 @@ import os, json, concurrent.futures as cf
 import vlib, tracecheck
 from vlib import OUT
 
-FINDING_KEYS = {"C15": "cgjkr-dkg-party-erased-from-qual-after-sharing-of-x",
-                "C16": "cgjkr-dss-signature-under-inconsistent-key"}
-
-def listed(pid):
-    return any(f.get("property") == pid and f.get("key") == FINDING_KEYS[pid] for f in vlib.known_findings().get("findings", []))
-
+# the listed findings this machinery knows how to recognise: key -> (constant of DKGTrace.tla that tolerates it,
+# protocol, explicit configuration of an execution that shows it (drv_dkg one <json>), recogniser)
 def erased(x):
-    """the trigger of the known finding: a good party was qualified in the sharing of x but not in the final QUAL"""
+    """a good party was qualified in the sharing of x but is missing from the final QUAL"""
     for e in x:
         if e.get("e") == "Out" and e.get("ret") and "xq" in e and sorted(e["xq"]) != sorted(e.get("qual", [])):
             return True
     return False
 
+def erased_bad_signature(x):
+    return erased(x) and any(e.get("e") == "Out" and e.get("role") == 0 and ((e.get("sret") and not e.get("ver")) or
+                                                                           (e.get("sret2") and not e.get("ver2"))) for e in x)
+
+def withheld_split(x):
+    """dealer stopped dealing (role 4) and the honest parties took different decisions about it"""
+    r0 = x[0]
+    if r0.get("proto") != "vss":
+        return False
+    outs = [e for e in x if e.get("e") == "Out" and e.get("role") == 0]
+    if not outs or r0["role"][outs[0]["dealer"]] != 4:
+        return False
+    return len({bool(e.get("ret")) for e in outs}) > 1
+
+K1_TRIGGER = {"cut_after": [-1, -1, -1, -1], "gi": 2, "grp": [46327, 1103, 39443, 18015], "n": 4, "proto": "dss", "rnd": True,
+              "role": [0, 0, 0, 1], "seed": 4197, "t": 1, "tamper": [-1, -1], "trbc": 1}
+K4_TRIGGER = {"cut_after": [-1, 42, -1, -1], "gi": 2, "grp": [46327, 1103, 24792, 21861], "n": 4, "proto": "vss", "rnd": False,
+              "role": [0, 4, 0, 0], "seed": 5012, "t": 1, "tamper": [-1, -1], "trbc": 1}
+FINDINGS = {
+    "C15": [("cgjkr-dkg-party-erased-from-qual-after-sharing-of-x", "KnownErase", K1_TRIGGER, erased),
+            ("vss-dealer-stops-dealing-splits-honest-parties", "KnownWithheld", K4_TRIGGER, withheld_split)],
+    "C16": [("cgjkr-dss-signature-under-inconsistent-key", "KnownErase", K1_TRIGGER, erased_bad_signature)],
+}
+
+def listed(pid, key=None):
+    keys = {f.get("key") for f in vlib.known_findings().get("findings", []) if f.get("property") == pid}
+    if key is not None:
+        return key in keys
+    return any(k in keys for k, _, _, _ in FINDINGS[pid])
+
+def trace_cfg(pid):
+    """the configuration of DKGTrace.tla for this property: a deviation is tolerated only while its finding is listed"""
+    consts = {"KnownErase": False, "KnownGJKR": False, "KnownWithheld": False}
+    for key, const, _, _ in FINDINGS[pid]:
+        if listed(pid, key):
+            consts[const] = True
+    d = os.path.join(OUT, pid); os.makedirs(d, exist_ok=True)
+    p = os.path.join(d, "DKGTrace-%s.cfg" % pid)
+    with open(p, "w") as f:
+        f.write("SPECIFICATION TSpec\nCONSTANTS\n" + "".join(" %s = %s\n" % (k, "TRUE" if v else "FALSE") for k, v in sorted(consts.items()))
+                + "POSTCONDITION Accepted\nCHECK_DEADLOCK FALSE\n")
+    return p
+
 def classify(ev, r):
     return "result-inconsistent"
 
+def report_known(ck, pid, execs, where):
+    """a listed finding is tolerated by the trace specification; say so for every listed finding that occurred"""
+    hits = {}
+    for key, _, _, rec in FINDINGS[pid]:
+        hit = [x for x in execs if rec(x)]
+        hits[key] = len(hit)
+        if hit and listed(pid, key):
+            ck.violation(key, "%s: finding occurred in %d of %d executions" % (where, len(hit), len(execs)), replay_obj=hit[0][0])
+    return hits
+
 def run_trigger(ck, pid):
-    """the execution that exhibits the recorded finding (n=4, t=1, party 3 with the library's faulty switch): always
-    run, so that the finding is re-examined by every run of the check"""
+    """one explicit execution per finding this property has (or had) listed: always run, so that every run of the check
+    re-examines the finding - with the finding listed the deviation must still be there to be reported as known,
+    without it the strict specification decides"""
     exe = vlib.build_driver("drv_dkg", extra_src=["seam_rng.cc", "seam_clock.cc"])
     d = os.path.join(OUT, pid); os.makedirs(d, exist_ok=True)
-    tp = os.path.join(d, "trace-trigger.ndjson")
-    rc, so, se, _ = vlib.run_driver(exe, ["run", 5, 30, tp, "dss", 5], timeout=1500, env={"VERIF_ONLY": "29"})
-    if rc != 0:
-        raise vlib.Infra("drv_dkg failed: %s %s" % (so[-300:], se[-300:]))
-    execs = tracecheck.split_executions(tp)
-    known = listed(pid)
-    tracecheck.validate(ck, pid, "trigger", "DKGTrace", "DKGTrace_known.cfg" if known else "DKGTrace.cfg", execs,
-                        classify=lambda ev, r: FINDING_KEYS[pid], chunks=1)
-    if known and any(erased(x) for x in execs):
-        ck.violation(FINDING_KEYS[pid], "trigger execution still shows the finding", replay_obj=execs[0][0])
+    execs = []
+    for k, (key, _, trig, _) in enumerate(FINDINGS[pid]):
+        tp = os.path.join(d, "trace-trigger-%d.ndjson" % k)
+        rc, so, se, _ = vlib.run_driver(exe, ["one", json.dumps(trig), tp], timeout=1500)
+        if rc != 0:
+            raise vlib.Infra("drv_dkg failed: %s %s" % (so[-300:], se[-300:]))
+        execs += tracecheck.split_executions(tp)
+    tracecheck.validate(ck, pid, "trigger", "DKGTrace", trace_cfg(pid), execs,
+                        classify=lambda ev, r: "trigger-" + classify(ev, r), chunks=1)
+    hits = report_known(ck, pid, execs, "trigger execution")
+    ck.part("trigger-executions", executions=len(execs), findings_seen=hits)
 
 def run_proto(ck, pid, proto, nexec, seed, maxn, chunks=8):
     exe = vlib.build_driver("drv_dkg", extra_src=["seam_rng.cc", "seam_clock.cc"])
@@ -51,12 +102,8 @@ def run_proto(ck, pid, proto, nexec, seed, maxn, chunks=8):
     execs = []
     for tp in tps:
         execs += tracecheck.split_executions(tp); os.unlink(tp)
-    known = listed(pid)
-    cfgp = "DKGTrace_known.cfg" if known else "DKGTrace.cfg"
-    n = tracecheck.validate(ck, pid, proto, "DKGTrace", cfgp, execs, classify=lambda ev, r: "%s-%s" % (proto, classify(ev, r)), chunks=chunks)
-    hit = [x for x in execs if erased(x)]
-    if hit and known:
-        ck.violation(FINDING_KEYS[pid], "known finding occurred in %d of %d executions" % (len(hit), len(execs)), replay_obj=hit[0][0])
+    n = tracecheck.validate(ck, pid, proto, "DKGTrace", trace_cfg(pid), execs, classify=lambda ev, r: "%s-%s" % (proto, classify(ev, r)), chunks=chunks)
+    hits = report_known(ck, pid, execs, "simulated " + proto)
     keys = []
     for x in execs:
         r0 = x[0]
@@ -64,7 +111,7 @@ def run_proto(ck, pid, proto, nexec, seed, maxn, chunks=8):
     nontrivial = [k for k, x in zip(keys, execs) if any(e.get("e") == "Out" and e.get("ret") for e in x)]
     ck.add_cases("simulated-" + proto, len(execs), nontrivial)
     ck.part("simulated-" + proto, with_faults=sum(1 for x in execs if any(r != 0 for r in x[0]["role"])),
-            known_finding_trigger=len(hit))
+            known_findings_seen=hits)
     if execs:
         ck.sample({"reset": execs[0][0], "first_result": {k: v for k, v in execs[0][1].items() if k not in ("C", "hv")}})
     return n
